@@ -5,6 +5,12 @@ CHECKS = {
  "C01": ("fault_enumeration", "child-process isolation + recover(): every call must return",
    "For every corpus/generated file and natural entry point, every cut point of a dense prefix and every structure boundary is crossed with five terminal reader behaviours; structure-aware malformations and random bytes are added from a seeded list. The oracle is 'the call returned' (panic caught by recover, fatal error seen as worker death). Held on the executions produced, not a proof.",
    "Trusted: Go's recover()/exit status as the crash observer; walkers that find the structural fields; sample files capped at 96 KiB.", "3/C01"),
+ "C02": ("exploration", "instrumented io.ReadSeeker (byte/seek/EOF-read counters) + per-call CPU-time watchdog (rusage)",
+   "Every decode entry point is run over an instrumented reader on corpus files, structure-aware malformations, loop-targeted shapes and random inputs (up to 1 MiB thorough). The oracle compares the reader's counters with the linear bound and a CPU-time budget per call; 'terminates' is thereby restated as bounded progress.",
+   "Trusted: getrusage CPU accounting; the bound is judged on a full-delivery reader (short-read schedules inflate a buffered reader's request sizes and are exercised under C08 instead); reads issued at end of input deliver nothing and are bounded by count (len/8+512), not by len(p).", "3/C02"),
+ "C14": ("exploration", "runtime.MemStats.TotalAlloc delta around each call in a single-goroutine worker; RLIMIT_AS back-stop",
+   "Each call runs alone between two ReadMemStats; inputs are corpus files, malformations and size-field attacks aimed at every allocation site fed by a file-derived number. Refuted by a delta above 4 MiB + 16*len or an out-of-memory death of the worker.",
+   "Trusted: TotalAlloc (heap only; stack growth not measured); harness allocations inside the call are within the 4 MiB constant.", "3/C14"),
 }
 NOT_APPLICABLE = []
 def main():
